@@ -141,7 +141,7 @@ def syntactic_dispatches(src, marker, families, lazy, what, after=None):
     """({family: canonical arms with table indices}, [reasons]) of the `let x = <decision tree on run_number>`
     statements of the function at marker; one dispatch per family (which one selects which family is decided by the
     bodies).  A family missing from the result could not be read: the reasons say why."""
-    found, why = {}, []
+    found, why, twice = {}, [], set()
     try:
         consts = dx.int_consts(src)
         block = dx.parse_body(fn_body(src, marker, after=after))
@@ -156,17 +156,19 @@ def syntactic_dispatches(src, marker, families, lazy, what, after=None):
             if len(fams) != 1:
                 raise GenError("`let %s` selects tables of %d families" % (name, len(fams)))
             fam = fams.pop()
-            if fam in found:
+            if fam in found or fam in twice:
+                # a second dispatching `let` for the family (shadowing?): which of them decides is not known here, so
+                # the family does not count as read
+                found.pop(fam, None)
+                twice.add(fam)
                 raise GenError("two dispatches select %s tables" % fam)
             found[fam] = dx.canonical_arms({r: (None if v is None else v[1]) for r, v in f.items()})
         except GenError as e:
             why.append("let %s: %s" % (name, e))
-    if why:
-        # a dispatching `let` that could not be read, or a second one for a family: which of them decides is not known
-        # here, so NO family counts as read (the callers probe the implementation for all of them)
-        return {}, why
+    # a non-empty `why` makes the callers compare what was read with the implementation's complete answers at every
+    # candidate run (settle): a family read from a `let` that another, unreadable `let` overrides cannot reproduce them
     for fam in families:
-        if fam not in found:
+        if fam not in found and not why:
             why.append("no `let .. = match/if` on run_number selecting a %s table" % fam)
     return found, why
 
@@ -175,7 +177,7 @@ def settle(what, src, families, found, why, helper_ok, helper, answers_of, predi
     """complete `found` by probing the implementation when a dispatch could not be read, or check the table-building
     helper of unknown shape against the implementation; appends the explanatory comments to notes"""
     missing = [f for f in families if f not in found]
-    if not missing and helper_ok:
+    if not missing and helper_ok and not why:
         return found
     runs = set(dx.candidate_runs(src))
     for b in scan_boundaries():
@@ -408,7 +410,7 @@ def gen_wire_maps():
                          % str(e).replace("*)", "* )")[:160])
 
     notes = []
-    if len(found) < 2 or not helper_ok:
+    if len(found) < 2 or not helper_ok or why:
         boards = known_boards("detector/src/alpha16.rs", "ALPHA16BOARDS")
         ptabs = [[(r[0], tuple(r[1])) for r in const_init(src, n)] for n in pnames]
         ctabs = [const_init(src, n) for n in cnames]
@@ -602,7 +604,7 @@ def gen_pad_maps():
                     "(the source could not be interpreted: %s) *)\n" % str(e).replace("*)", "* )")[:200])
 
     notes = []
-    if not found or not helper_ok:
+    if not found or not helper_ok or why:
         boards = known_boards("detector/src/padwing.rs", "PADWING_BOARDS")
         tabs = [const_init(src, n) for n in bnames]
         found = settle("padwing/map.rs TpcPwbPosition::try_new", src, families, found, why, helper_ok, "inverse_pwb_map",
